@@ -167,6 +167,18 @@ def _raise(ex):
     raise ex
 
 
+def _is_generator_function(fnode):
+    todo = list(fnode.body)
+    while todo:
+        n = todo.pop()
+        if isinstance(n, (ast.Yield, ast.YieldFrom)):
+            return True
+        if isinstance(n, (ast.FunctionDef, ast.AsyncFunctionDef, ast.Lambda, ast.ClassDef)):
+            continue
+        todo.extend(ast.iter_child_nodes(n))
+    return False
+
+
 def _exc_names(label):
     """'KeyError(x)' -> ['KeyError']; 'ode_utils.IntegrationError' -> ['IntegrationError']; 'KeyError/IndexError(..)' -> both"""
     head = str(label).split("(")[0].strip()
@@ -350,6 +362,8 @@ class Abs:
                 return ("callable", cn)         # a standard-library callable imported by name (from itertools import product)
             if e.id in _BUILTIN_CALLABLES:
                 return ("callable", e.id)
+            if e.id in ("object", "set", "frozenset", "complex", "bytes"):
+                return ("callable", e.id)
             if e.id in getattr(self, "_unbound", ()):
                 raise Raised("UnboundLocalError(cannot access local variable %s where it is not associated with a value)" % e.id)
             raise Undecided("unbound name %s" % e.id)
@@ -493,6 +507,15 @@ class Abs:
             return self.binop(e.op, a, b)
         if isinstance(e, ast.IfExp):
             return self.ev(e.body) if self.truth(self.ev(e.test)) else self.ev(e.orelse)
+        if isinstance(e, (ast.Yield, ast.YieldFrom)):
+            ys = getattr(self, "_yields", None)
+            if ys is None:
+                raise Undecided("yield outside a generator function the interpreter entered")
+            if isinstance(e, ast.Yield):
+                ys.append(self.ev(e.value) if e.value is not None else None)
+            else:
+                ys.extend(self._iter(self.ev(e.value)))
+            return None             # nothing is ever sent into these generators
         if isinstance(e, ast.NamedExpr):
             v = self.ev(e.value)
             self.env[e.target.id] = v          # binds in the enclosing function scope, also from inside a comprehension
@@ -1414,6 +1437,8 @@ class Abs:
                 if m == "join":
                     return s.join(str(x) for x in self._iter(args[0]))
                 return getattr(s, m)(*args)
+        if getattr(f, "_abs_native", False) and callable(f) and not isinstance(f, type):
+            return _lib(f, args, kw)            # a callable library object (a scipy.stats family called to freeze its parameters)
         raise Undecided("call of %r" % (f,))
 
     def _exc_is_a(self, raised, handler):
@@ -1874,6 +1899,16 @@ class Abs:
                 else:
                     raise Raised("TypeError(missing argument %s of %s)" % (p_, fnode.name))
         self.env.update(bound)
+        if _is_generator_function(fnode):
+            # a generator function: its items are produced eagerly (a limit of the interpreter) and handed back as an iterator
+            self._yields = []
+            try:
+                self.run(fnode.body)
+            except _Ret:
+                pass
+            except Raised as r:
+                return ("raise", r.exc)
+            return ("return", OneShot(self._yields))
         try:
             self.run(fnode.body)
         except _Ret as r:
@@ -1941,6 +1976,18 @@ class Abs:
         a = fnode.args
         params = [x.arg for x in a.posonlyargs + a.args]
         defaults = dict(zip(params[len(params) - len(a.defaults):], a.defaults))
+        if a.vararg is not None and a.vararg.arg not in args:
+            self.env[a.vararg.arg] = ()
+        if a.kwarg is not None and a.kwarg.arg not in args:
+            self.env[a.kwarg.arg] = {}
+        for x_, d_ in zip(a.kwonlyargs, a.kw_defaults):
+            if x_.arg in args:
+                self.env[x_.arg] = args[x_.arg]
+            elif d_ is not None:
+                self.env[x_.arg] = self._default(fnode, x_.arg, d_)
+        for extra_name in (a.vararg.arg if a.vararg is not None else None, a.kwarg.arg if a.kwarg is not None else None):
+            if extra_name is not None and extra_name in args:
+                self.env[extra_name] = args[extra_name]
         for p in params:
             if p == "self" and self.self_obj is not None:
                 continue
